@@ -35,6 +35,18 @@ def decode(raw: bytes) -> tuple[str, Any]:
         return "escape", exc
 
 
+def same_pdu(a: Any, b: Any) -> bool:
+    try:
+        if a == b:
+            return True
+    except Exception:  # noqa: BLE001
+        pass
+    try:
+        return bytes(a.to_knx()) == bytes(b.to_knx())
+    except Exception:  # noqa: BLE001
+        return repr(a) == repr(b)
+
+
 def run_space(gen: Iterator[bytes], part: Part, budget_s: float) -> None:
     """Decode every APDU; per 10-bit code: a code that decodes for some APDU must never answer 'unsupported'."""
     signal.signal(signal.SIGALRM, _alarm)
@@ -47,6 +59,11 @@ def run_space(gen: Iterator[bytes], part: Part, budget_s: float) -> None:
             part.evaluations += 1
             outcome, val = decode(raw)
             part.outcomes[outcome] += 1
+            # the same APDU again (a repetition on the bus, the L_Data.con echo of a frame): the verdict is a function of the octets,
+            # not of what was decoded before - the enumeration order makes every kind of APDU follow every other kind
+            again, val2 = decode(raw)
+            if again != outcome or (outcome == "object" and (type(val2) is not type(val) or not same_pdu(val, val2))):
+                part.viol(f"verdict-depends-on-history:{outcome}-then-{again}", f"APCI.from_knx({raw.hex()}) gave {outcome} ({val!r}) and, asked again at once, {again} ({val2!r})", raw, rank=(len(raw), raw))
             if outcome == "escape":
                 part.viol(exc_sig("escape", val), f"APCI.from_knx({raw.hex()}) raised {val!r}", raw, rank=(len(raw), raw))
             if len(raw) >= 2:
@@ -84,7 +101,7 @@ def w_short(first: int, thorough: bool) -> Part:
 
 def run(ctx: Ctx) -> None:
     ctx.rule = (
-        "APCI.from_knx on: all APDUs of length 0..2 and of length 3 (quick: 8 third-octet values, thorough: all 16.8M); struct-space: all 1024 APCI codes x TPCI bits {00,FC} x every length "
+        "every APDU is decoded twice in a row (same verdict and object, whatever was decoded before); APCI.from_knx on: all APDUs of length 0..2 and of length 3 (quick: 8 third-octet values, thorough: all 16.8M); struct-space: all 1024 APCI codes x TPCI bits {00,FC} x every length "
         "2..40 and {48,64,128,254,255} x fills {00,FF,01 02 03..,seed} x count octet 0..7 in the first/second body octet. Oracle: object, ConversionError or UnsupportedAPCIService, "
         "no hang; a 10-bit code that decodes to an object for any APDU in the space must never answer 'unsupported'. non-trivial = decoded to an object"
     )
